@@ -800,7 +800,14 @@ func verifYield(point int) {
 // verifAdopt registers the calling (library-spawned) goroutine as thread id when
 // the scheduler is on, parking it at point 0 first.
 func verifAdopt(id int) {
-	if !verifSched.on.Load() || !verifAdoptWorkers.Load() {
+	if !verifSched.on.Load() {
+		return
+	}
+	if id >= 2000 {
+		if !verifAdoptNotifier.Load() {
+			return
+		}
+	} else if !verifAdoptWorkers.Load() {
 		return
 	}
 	th := verifRegisterSelf(id)
@@ -920,4 +927,22 @@ func (c *Cache[K, V]) VerifDrainStripe(i, stripe int) {
 func (c *Cache[K, V]) VerifStripeState(i, stripe int) (tail, head uint64) {
 	st := &c.shards[i].readBuf.stripes[stripe]
 	return st.tail.Load(), st.head.Load()
+}
+
+var verifAdoptNotifier atomic.Bool
+
+// VerifSchedAdoptNotifier makes removal-notifier goroutines started from now on schedulable thread 2000.
+func VerifSchedAdoptNotifier(on bool) { verifAdoptNotifier.Store(on) }
+
+// VerifNotifierState exposes the delivery pipeline (meaningful while every other thread is parked): the wake token,
+// and per shard the pending flag and the number of staged entries.
+func (c *Cache[K, V]) VerifNotifierState() (wake bool, pending []bool, staged []int) {
+	wake = c.removeWake != nil && len(c.removeWake) > 0
+	for _, s := range c.shards {
+		pending = append(pending, s.removePending.Load())
+		s.mu.Lock()
+		staged = append(staged, len(s.removeBuf))
+		s.mu.Unlock()
+	}
+	return
 }
